@@ -129,7 +129,7 @@ def snapshot(engine):
                 cost=float(res.cost), rows=rows, price=float(np.ravel(st.price(no_control_variates=True))[0]))
 
 
-def run_mlmc(history, L0, N0, level_max, seed=None, nb_of_processes=1):
+def run_mlmc(history, L0, N0, level_max, seed=None, nb_of_processes=1, coupling=None, product=None):
     """history: list of (Ns, conv, Ns2).  Returns dict(outcome, reads=[snapshot…], final=snapshot|None, log, engine).
     Call pattern of one loop iteration of Engine.price: compute_mc_paths [-> criteria [-> compute_mc_paths]]."""
     log, reads = [], []
@@ -164,11 +164,11 @@ def run_mlmc(history, L0, N0, level_max, seed=None, nb_of_processes=1):
                                   convergence_criteria=ConvergenceCriteria(criteria=criteria, compute_mc_paths=compute_mc_paths),
                                   initial_level=L0, maximum_level=level_max, initial_mc_paths=N0, seed=seed,
                                   nb_of_processes=nb_of_processes)
-    eng = MLMCEngine(configuration=cfg, coupling_process=FakeCoupling(log))
+    eng = MLMCEngine(configuration=cfg, coupling_process=coupling if coupling is not None else FakeCoupling(log))
     holder["engine"] = eng
     outcome = "ret"
     try:
-        eng.price(identity_product(), rmse=0.01)
+        eng.price(product if product is not None else identity_product(), rmse=0.01)
     except Exhausted:
         outcome = "cont"
     final = snapshot(eng) if outcome == "ret" else None
@@ -184,3 +184,54 @@ def run_mlmc_fixed(max_level, mc_paths, L0=None, seed=None):
     eng = MLMCEngine(configuration=cfg, coupling_process=FakeCoupling(log))
     eng.price_with_constant_mc_paths_and_level(identity_product())
     return dict(final=snapshot(eng), log=log, engine=eng)
+
+
+# ------------------------------------------------------------------------------------------------ standard engine
+from rpylib.montecarlo.configuration import ConfigurationStandard
+from rpylib.montecarlo.standard.engine import Engine as StdEngine
+from rpylib.product.product import ControlVariates
+from rpylib.process.process import Process
+
+
+class FakeProcess:
+    """stands in for a LevyProcess in the standard engine: the i-th simulated path ends at the prescribed value"""
+
+    process_representation = ProcessRepresentation.IDENDITY
+
+    def __init__(self, terminal_values, df=DF, log=None):
+        self.terminal_values = list(terminal_values)
+        self.model = _FakeModel()
+        self._df = df
+        self.count = 0
+        self.log = log if log is not None else []
+
+    def dimension(self):
+        return 1
+
+    def initialisation(self, product):
+        pass
+
+    def pre_computation(self, mc_paths, product):
+        self.log.append(("pre", 0, int(mc_paths)))
+
+    def deterministic_path(self, times):
+        return np.zeros(len(times))
+
+    def df(self, t):
+        return self._df
+
+    def simulate_one_path(self):
+        k = self.count
+        self.count += 1
+        self.log.append(("sim", 0, k))
+        return StochasticJumpPath(np.array([0.0, T]), np.array([0.0, self.terminal_values[k]]), np.zeros(2))
+
+
+def run_standard(terminal_values, product, df=DF, controls=None, control_prices=None, spot_stats=False, seed=None):
+    log = []
+    cv = ControlVariates(products=controls, prices=control_prices) if controls else None
+    cfg = ConfigurationStandard(mc_paths=len(terminal_values), seed=seed, control_variates=cv,
+                                activate_spot_statistics=spot_stats, nb_of_processes=1)
+    eng = StdEngine(configuration=cfg, process=FakeProcess(terminal_values, df=df, log=log))
+    stats = eng.price(product)
+    return dict(stats=stats, log=log, engine=eng)
